@@ -11,7 +11,7 @@ Oracle: vf.texpr.ref_eval - the same operations applied with the `operator` modu
 from hypothesis import strategies as st
 
 import glom
-from glom import PathAccessError, GlomError
+from glom import PathAccessError, GlomError, Path
 
 from ..runner import Sub, Mismatch
 from .. import runner as runner_mod
@@ -272,7 +272,12 @@ def gen(draw):
         if failed and draw(st.booleans()):
             stp = trailing_step(draw)
         elif not failed and not fail:
-            if isinstance(cur, dict) and 'k' in cur and draw(st.integers(0, 3)) == 0:
+            if draw(st.sampled_from(range(14))) == 0:
+                # a nested argument that itself fails: the first failing operation is INSIDE the argument
+                bad = draw(st.sampled_from([ABSENT, ['Spec', ABSENT], ['T', 'T', [['[', ['s', 'n']], ['[', ['s', 'q']]]],
+                                            ['T', 'T', [['[', ['s', 'xs']], ['[', ['i', 77]]]]]))
+                stp = draw(st.sampled_from([['[', bad], ['bin', '+', bad], ['(', [bad], []], ['(', [], [['p', bad]]]]))
+            elif isinstance(cur, dict) and 'k' in cur and draw(st.integers(0, 3)) == 0:
                 stp = ['[', ECHO_K]          # nested argument with an observable side effect
             else:
                 stp = gen_step(draw, cur, target, False)
@@ -335,10 +340,12 @@ def check(recipe, ctx):
     steps = recipe['steps']
     # reference on its own copy of the target (echo logs are per target)
     rt, recho = make_target(recipe['target'])
+    nested_fail = None
     try:
         exp = ('ok', tx.ref_eval(rt, steps, rt))
     except tx.RefFail as rf:
         exp = ('err', rf.k, rf.exc, rf.kind)
+        nested_fail = rf.nested
     gt, gecho = make_target(recipe['target'])
     spec = tx.build_t('T', steps, gt)
     snap = tg.snapshot(gt)
@@ -378,7 +385,20 @@ def check(recipe, ctx):
         if err is None:
             raise Mismatch('missing-error', '%s: reference fails at step %d with %r, glom returned %r'
                            % (where, k, E, got))
-        if kind in PAE_KINDS and isinstance(E, PAE_KINDS[kind]):
+        if nested_fail is not None:
+            # the failing operation belongs to the nested argument expression: that is what the error must name
+            ctx.label('fail-in-nested-arg')
+            inner = tx.build_t(nested_fail[0], nested_fail[1], gt)
+            if not isinstance(err, PathAccessError):
+                raise Mismatch('not-pae', '%s: nested argument %r fails at its step %d with %r; glom raised %s: %r'
+                               % (where, inner, k, E, type(err).__name__, err.args))
+            if repr(err.path) != repr(Path(inner)) and repr(err.path) != repr(inner):
+                raise Mismatch('wrong-path-attr', '%s: the failing operation is step %d of the nested argument %r, '
+                               'the error names %r' % (where, k, inner, err.path))
+            if err.part_idx != k or type(err.exc) is not type(E) or err.exc.args != E.args:
+                raise Mismatch('wrong-part-idx', '%s: nested argument %r fails at its step %d with %r; error says part %r, %r'
+                               % (where, inner, k, E, err.part_idx, err.exc))
+        elif kind in PAE_KINDS and isinstance(E, PAE_KINDS[kind]):
             if not isinstance(err, PathAccessError):
                 raise Mismatch('not-pae', '%s: step %d (%s) fails with %r; glom raised %s: %r'
                                % (where, k, kind, E, type(err).__name__, err.args))
@@ -419,5 +439,5 @@ def check(recipe, ctx):
 
 SUBS = [
     Sub('replay', check, gen=gen, quick=8000, thorough=20000,
-        floors={'exp-ok': 0.2, 'exp-err': 0.15, 'nested-T-arg': 0.05, 'nested-arg-after-failure': 0.05, 'op//': 0.02, 'fail-at-k>=1': 0.1}),
+        floors={'exp-ok': 0.2, 'exp-err': 0.15, 'nested-T-arg': 0.05, 'nested-arg-after-failure': 0.05, 'fail-in-nested-arg': 0.01, 'op//': 0.02, 'fail-at-k>=1': 0.1}),
 ]
